@@ -33,13 +33,13 @@ def attrNames (attrs : Json) : List String :=
 
 def okT (dt : DType) (r : Res (Tensor Int)) : Outcome :=
   match r with
-  | .ok t => { status := "ok", outs := [some ⟨dt, t⟩] }
+  | .ok t => { status := "ok", outs := [some (DT.mk dt t none)] }
   | .error e => .ofErr e
 
 /-- spec outcome of a reshape-like operator: same data, prescribed shape, or refusal -/
 def reshapeSpec (X : DT) (s : Option (List Nat)) : SpecOut :=
   match s with
-  | some sh => { domain := "must", outs := some [some ⟨X.dt, ⟨sh, X.t.data⟩⟩] }
+  | some sh => { domain := "must", outs := some [some (DT.mk X.dt ⟨sh, X.t.data⟩ none)] }
   | none => { domain := "mustRefuse" }
 
 def runShapeOp (op : String) (attrs : Json) (ins : List (Option DT)) : Answer :=
@@ -85,7 +85,7 @@ def runShapeOp (op : String) (attrs : Json) (ins : List (Option DT)) : Answer :=
       { model := okT X.dt (unsqueezeOp X.t A.t), spec := reshapeSpec X (Spec.unsqueezeShape X.t.shape A.t.data), tags }
   | "Shape", [some X] =>
     { model := okT .i64 (shapeOp X.t), tags := [s!"rank{X.t.rank}"],
-      spec := { domain := "must", outs := some [some ⟨.i64, ⟨[X.t.rank], X.t.shape.map (fun (d : Nat) => (d : Int))⟩⟩] },
+      spec := { domain := "must", outs := some [some (DT.mk .i64 ⟨[X.t.rank], X.t.shape.map (fun (d : Nat) => (d : Int))⟩ none)] },
       guard := [] }
   | _, _ => { model := { status := "unmodelled" } }
 
